@@ -180,7 +180,13 @@ def sources(draw, nfilt, k=None, logmodels=None, min_fit=2, flags=None, distance
         err.append(e)
     return {'name': name or draw(st.sampled_from(['src', 'SSTGLMC_G009.8925-00.3420', 's_1', 'a'])),
             'x': draw(st.sampled_from([0., 9.8925, 271.25])), 'y': draw(st.sampled_from([0., -0.342, 45.5])),
-            'flags': flags, 'flux': flux, 'err': err, 'planted': planted}
+            'flags': flags, 'flux': flux, 'err': err, 'planted': planted,
+            # the flag vector is any 1-d sequence of whole numbers: numpy's default integers, the narrow or unsigned
+            # integers of a catalogue / FITS column, or floats
+            'flag_dtype': draw(FLAG_DTYPES)}
+
+
+FLAG_DTYPES = st.sampled_from(['int', 'int', 'int', 'int32', 'int16', 'int8', 'uint8', 'uint16', 'float'])
 
 
 def integerize(s):
@@ -203,7 +209,7 @@ def source_object(s):
     o.name = s['name']
     o.x = s['x']
     o.y = s['y']
-    o.valid = np.array(s['flags'], dtype=int)
+    o.valid = np.array(s['flags'], dtype=np.dtype(s.get('flag_dtype') or 'int'))
     if s.get('int_arrays'):
         # photometry given as Python / numpy integers (legal: the setters accept any 1-d sequence)
         def narrow(vals):
